@@ -312,6 +312,84 @@ def dense_inverse(ck, tier, seed):
                                    fam, box, K, float(y32[i]), float(x32[i]), float(x64[i]), float((l32[i] - l64[i]).abs())), case)
 
 
+def batch_statistics(ck, tier, seed):
+    """layers that compute statistics of the batch they are given (BatchNorm in training mode, ActNorm on its first call), on features
+    that are not standardised (centre c, spread s): the float32 evaluation agrees with the float64 twin to single precision scaled by
+    the conditioning |x| / s of x -> (x - mean) / std"""
+    from nflows.transforms import normalization as nm
+    from nflows.transforms.base import CompositeTransform
+    from nflows.transforms import standard as st
+    kinds = (("BatchNorm(3), training mode", lambda: nm.BatchNorm(3)),
+             ("ActNorm(3), first call", lambda: nm.ActNorm(3)),
+             ("Composite(affine, BatchNorm(3)), training mode", lambda: CompositeTransform([st.PointwiseAffineTransform(0.5, 1.5), nm.BatchNorm(3)])))
+    for c_, sp_ in ((10.0, 0.05), (100.0, 0.5), (30.0, 0.1), (-50.0, 0.2), (3.0, 1.0)):
+        for kname, mk in kinds:
+            for rep in range(2 if tier == "quick" else 8):
+                g = tgen(seed, "c19-bn", kname, c_, sp_, rep)
+                torch.manual_seed(seed % 100000 + rep)
+                t32 = mk().train()
+                t64 = copy.deepcopy(t32).double()
+                x32 = (c_ + sp_ * torch.randn(64, 3, generator=g, dtype=torch.float64)).float()
+                ck.case(("c19-bn", kname, c_, sp_, rep), nontrivial=True)
+                case = {"search": "batch-statistics", "layer": kname, "centre": c_, "spread": sp_, "seed": seed, "rep": rep}
+                with torch.no_grad():
+                    a, b = attempt(t32, x32), attempt(t64, x32.double())
+                if a[0] != "ok" or b[0] != "ok":
+                    if a[0] != "ok" and b[0] == "ok":
+                        ck.finding("precision:float32-raises:%s" % kname, "%s %s" % (a[1], a[2]), case)
+                    continue
+                (y32, l32), (y64, l64) = a[1], b[1]
+                if not (bool(torch.isfinite(y32).all()) and bool(torch.isfinite(l32).all())):
+                    ck.finding("precision:float32-non-finite:%s" % kname, "features centred at %g with spread %g" % (c_, sp_), case)
+                    continue
+                kappa = float(x32.abs().max()) / sp_ + 1.0
+                tol = 20 * 6e-8 * kappa
+                err = float((y32.double() - y64).abs().max()) / (1 + float(y64.abs().max()))
+                lerr = float((l32.double() - l64).abs().max()) / (1 + float(l64.abs().max()))
+                if err > tol or lerr > 3 * tol:
+                    ck.finding("precision:float32-disagrees-with-float64:%s" % kname,
+                               "features centred at %g with spread %g: output error %.3g, log-det error %.3g (tolerance %.3g = 20 eps32 |x|/s)"
+                               % (c_, sp_, err, lerr, tol), case)
+                    break
+
+
+def short_reflection_vectors(ck, tier, seed):
+    """Householder factors whose reflection vectors are short (norms 0.1 .. 0.003 - small numbers, not denormal ones): a reflection
+    does not depend on the length of its vector, so float32 agrees with the float64 twin to single precision, both directions"""
+    from nflows.transforms import orthogonal as og, qr as qr_, svd as svd_
+    kinds = (("HouseholderSequence(4, 3)", lambda: og.HouseholderSequence(4, 3)), ("QRLinear(4, 3 reflections)", lambda: qr_.QRLinear(4, 3)),
+             ("SVDLinear(4, 2 reflections)", lambda: svd_.SVDLinear(4, 2)))
+    for kname, mk in kinds:
+        for norm_ in (0.1, 0.03, 0.01, 0.003):
+            torch.manual_seed(seed % 100000 + 11)
+            t32 = mk()
+            g = tgen(seed, "c19-hh", kname, norm_)
+            with torch.no_grad():
+                for n_, p_ in t32.named_parameters():
+                    if "q_vectors" in n_:
+                        v = torch.randn(p_.shape, generator=g)
+                        p_.copy_(v / v.norm(dim=-1, keepdim=True) * norm_)
+            t32.eval()
+            t64 = copy.deepcopy(t32).double()
+            x32 = torch.randn(6, 4, generator=g)
+            ck.case(("c19-hh", kname, norm_), nontrivial=True)
+            case = {"search": "short-reflection-vectors", "layer": kname, "norm": norm_, "seed": seed}
+            for direction in ("forward", "inverse"):
+                with torch.no_grad():
+                    a, b = attempt(getattr(t32, direction), x32), attempt(getattr(t64, direction), x32.double())
+                if a[0] != "ok" or b[0] != "ok":
+                    if a[0] != "ok" and b[0] == "ok":
+                        ck.finding("precision:float32-raises:%s" % kname, "%s %s" % (a[1], a[2]), case)
+                    break
+                err = float((a[1][0].double() - b[1][0]).abs().max()) / (1 + float(b[1][0].abs().max()))
+                lerr = float((a[1][1].double() - b[1][1]).abs().max())
+                if not bool(torch.isfinite(a[1][0]).all()) or err > 2e-5 or lerr > 2e-5:
+                    ck.finding("precision:float32-disagrees-with-float64:%s" % kname,
+                               "reflection vectors of norm %g, %s: relative output error %.3g, log-det error %.3g (an orthogonal map: tolerance 2e-5)"
+                               % (norm_, direction, err, lerr), case)
+                    break
+
+
 def run(tier, seed):
     ck = Check("C19", tier, seed, areas=[], gen_groups=["Tables", "Utils", "SplineRQ"])
     ck.rule = ("every catalogue transform: the float32 model against its float64 deep copy on the same moderate parameters and "
@@ -324,6 +402,8 @@ def run(tier, seed):
     search(ck, tier, seed)
     dense_inverse(ck, tier, seed)
     wide_tails(ck, tier, seed)
+    batch_statistics(ck, tier, seed)
+    short_reflection_vectors(ck, tier, seed)
     return ck.finish()
 
 
